@@ -336,8 +336,17 @@ def check(pid, tier, seed, replay=None, only=None):
               "whitebox_unavailable": []}
     assumptions = []
     exhaustive = []
-    for u in units:
-        r = run_unit(u, tier, seed, replay)
+    # units are independent processes with their own output directories: run up to VERIF_UNIT_JOBS side by side
+    jobs = max(1, int(os.environ.get("VERIF_UNIT_JOBS", "4")))
+    if len(units) > 1 and jobs > 1:
+        for u in units:
+            build_cmd(u, tier, compile_only=True)  # generate the shared overlay / module files before the workers start
+        from concurrent.futures import ThreadPoolExecutor
+        with ThreadPoolExecutor(max_workers=jobs) as ex:
+            results = list(ex.map(lambda u: run_unit(u, tier, seed, replay), units))
+    else:
+        results = [run_unit(u, tier, seed, replay) for u in units]
+    for u, r in zip(units, results):
         uinfo = {"exit": r["exit"], "wall_s": r["wall_s"], "reports": {}}
         merged["units"][u["name"]] = uinfo
         if r["build_failed"]:
